@@ -560,21 +560,32 @@ def agg_final(kind, vals):
         return min(nums)
     if kind == 'MAX':
         return max(nums)
+    # the scale against which a floating-point result is judged: the operands, not the (possibly cancelling) exact result
+    big = max(abs(x) for x in nums)
     if kind == 'SUM':
-        return sum(nums)
+        return Scaled(sum(nums), big * len(nums))
     if kind == 'AVG':
-        return sum(nums) / len(nums)
+        return Scaled(sum(nums) / len(nums), big)
     if kind == 'VARIANCE':
         n = len(nums)
         mean = sum(nums) / n
-        return sum(x * x for x in nums) / n - mean * mean
+        return Scaled(sum(x * x for x in nums) / n - mean * mean, big * big)
     if kind == 'MEDIAN':
         s = sorted(nums)
         m = len(s) // 2
         if len(s) % 2:
             return s[m]
-        return (s[m - 1] + s[m]) / 2
+        return Scaled((s[m - 1] + s[m]) / 2, big)
     raise AssertionError(kind)
+
+
+class Scaled(Fraction):
+    """an exact rational result that remembers the magnitude of its operands: a float answer is accepted within 1e-9 of that magnitude
+    (summing 1e-11 + 3e-11 - 2e-11 - 2e-11 in floating point gives 0.0 or 3e-27, never the exact rational sum of the parsed doubles)"""
+    def __new__(cls, value, scale):
+        self = Fraction.__new__(cls, value)
+        self.scale = Fraction(scale)
+        return self
 
 
 def join_matches(q, A_rec, nr, B, bmaxlen):
@@ -920,9 +931,13 @@ def same_value(exp, got, tol=1e-9):
     if isinstance(exp, Fraction):
         if isinstance(got, bool) or not isinstance(got, (int, float)):
             return False
-        if exp == 0:
+        if exp == 0 and not getattr(exp, 'scale', 0):
             return abs(got) <= tol
-        return abs(Fraction(got) - exp) <= tol * abs(exp) if isinstance(got, float) else Fraction(got) == exp
+        if isinstance(got, float) or exp.denominator != 1:      # an int where the exact result is not an integer: a rounded float that came back through JSON
+            if isinstance(got, float) and (got != got or got in (float('inf'), float('-inf'))):
+                return False
+            return abs(Fraction(got) - exp) <= tol * max(abs(exp), getattr(exp, 'scale', 0))
+        return Fraction(got) == exp
     if isinstance(exp, list):
         return isinstance(got, list) and len(exp) == len(got) and all(same_value(x, y, tol) for x, y in zip(exp, got))
     if isinstance(exp, bool) or isinstance(got, bool):
